@@ -82,12 +82,22 @@ let () = run_protocol (fun case impl ->
     let r = slot_run ops [] in
     let oi = (match trace_of_string impl with Some ti -> slot_ok ops ti | None -> false) in
     (string_of_trace r, oi, slot_ok ops r)
-  | ["f"; np; _; ops; _] ->
+  | "f" :: np :: _ :: ops :: _ ->
     let np = int_of_string np and ops = int_of_string ops in
     let n = np * ops in
     let expected = Printf.sprintf "FREE total=%d dup=0 lost=0 ord=0 sum=%d" n (n * (n + 1) / 2) in
     let oi = (try Scanf.sscanf impl "FREE total=%d dup=%d lost=%d ord=%d sum=%d" (fun t d l o s ->
                 free_ok (n_of_int np) (n_of_int ops) (n_of_int t) (n_of_int d) (n_of_int l) (n_of_int o) (n_of_int s))
+              with _ -> false) in
+    (expected, oi, true)
+  | ["b"; _; _; _; _; n] ->
+    (* large backlog: digest only — the extracted interleaving model (unary tickets) is not run;
+       the expected line is what a queue that delivers everything in order prints *)
+    let n = int_of_string n in
+    let expected = Printf.sprintf "BACKLOG pushed=%d popped=%d empty=1 null=0 dup=0 lost=0 ord=0" n n in
+    let oi = (try Scanf.sscanf impl "BACKLOG pushed=%d popped=%d empty=%d null=%d dup=%d lost=%d ord=%d"
+                (fun a b c d e f g -> backlog_ok (n_of_int n) (n_of_int a) (n_of_int b) (n_of_int c) (n_of_int d)
+                                         (n_of_int e) (n_of_int f) (n_of_int g))
               with _ -> false) in
     (expected, oi, true)
   | _ -> ("BAD-CASE", false, false))
